@@ -217,6 +217,8 @@ def h_agree(ctx):
     for (f, pos) in marks:
         del ai.fields[f][pos]
     order = ctx.choose("text-row-order", ("natural", "reversed"), free=True)
+    # '%' is the one unit that is not wrapped for the LaTeX interpreter: both formats give exactly '%'
+    ai.units = ctx.choose("units", ("K", "%"), free=True)
     d = os.path.join(H.scratch(), "c10agree")
     os.makedirs(d, exist_ok=True)
     pn = os.path.join(d, "a%d.nc" % os.getpid())
@@ -232,6 +234,8 @@ def h_agree(ctx):
     ctx.require(type(inn).__name__ == "Netcdf" and type(itx).__name__ == "Text", "agree:wrong-reader", actual=[type(inn).__name__, type(itx).__name__])
     ctx.require(inn.variable.name == itx.variable.name and inn.variable.units.replace("$", "") == itx.variable.units.replace("$", ""),
                 "agree:variable-metadata", nc=[inn.variable.name, inn.variable.units], text=[itx.variable.name, itx.variable.units])
+    if ai.units == "%":
+        ctx.require(inn.variable.units == "%" and itx.variable.units == "%", "agree:units-percent", nc=inn.variable.units, text=itx.variable.units)
     ctx.require(sorted(float(x) for x in inn.thresholds) == sorted(float(x) for x in itx.thresholds), "agree:thresholds")
     ctx.require(sorted(float(x) for x in inn.quantiles) == sorted(float(x) for x in itx.quantiles), "agree:quantiles")
     dn = H.quiet_call(verif.data.Data, [inn])
